@@ -96,6 +96,62 @@ _DOC_DESC = {'et': _node('document', children=[_EL_A]), 'lx': _node('document', 
 ELEMENT_IDX, ATTR_IDX = (1, 2, 3), (4, 5)
 
 
+N_PLAIN = len(NODES)        # NODES[0..9]: the untyped document; NODES[10..]: nodes of the schema-typed documents
+
+_XSI = 'xmlns:xsi="http://www.w3.org/2001/XMLSchema-instance"'
+_XSD1 = """<xs:schema xmlns:xs="http://www.w3.org/2001/XMLSchema">
+ <xs:simpleType name="small"><xs:restriction base="xs:int"><xs:maxInclusive value="100"/></xs:restriction></xs:simpleType>
+ <xs:element name="r"><xs:complexType><xs:sequence>
+   <xs:element name="n" type="xs:int" nillable="true" maxOccurs="unbounded"/>
+   <xs:element name="d" type="xs:date" nillable="true" maxOccurs="unbounded"/>
+   <xs:element name="s" type="small" nillable="true" maxOccurs="unbounded"/>
+   <xs:element name="t" type="xs:string" minOccurs="0"/>
+ </xs:sequence><xs:attribute name="a" type="xs:int"/><xs:attribute name="b" type="xs:date"/></xs:complexType></xs:element>
+</xs:schema>"""
+_XML1 = ('<r %s a="5" b="2000-01-01"><n>1</n><n xsi:nil="true"/><n>3</n><d>2000-02-29</d><d xsi:nil="true"/>'
+         '<s>7</s><s xsi:nil="true"/><t>x</t></r>' % _XSI)
+_XSD2 = """<xs:schema xmlns:xs="http://www.w3.org/2001/XMLSchema">
+ <xs:element name="doc"><xs:complexType><xs:sequence>
+   <xs:element name="e" type="xs:decimal" nillable="true" maxOccurs="unbounded"/>
+   <xs:element name="u" type="xs:duration" nillable="true" maxOccurs="unbounded"/>
+   <xs:element name="k" type="xs:unsignedByte" nillable="true" maxOccurs="unbounded"/>
+   <xs:element name="w" type="xs:NCName" nillable="true" maxOccurs="unbounded"/>
+   <xs:element name="f" type="xs:boolean"/>
+ </xs:sequence><xs:attribute name="id" type="xs:ID"/><xs:attribute name="q" type="xs:unsignedShort"/></xs:complexType></xs:element>
+</xs:schema>"""
+_XML2 = ('<doc %s id="i1" q="9"><e>1.5</e><e xsi:nil="true"/><u>PT1H</u><u xsi:nil="true"/><k>200</k><k xsi:nil="true"/>'
+         '<w>nm</w><w xsi:nil="true"/><f>true</f></doc>' % _XSI)
+
+
+def _tel(name, annot, nilled=False):
+    return ('node', 'element', name, annot, nilled, None)
+
+
+def _tat(name, annot):
+    return ('node', 'attribute', name, annot, False, None)
+
+
+# (xpath, description); a user-defined restriction is described by its nearest built-in base (only built-in type
+# names are used as type arguments, for which derives-from gives the same answer)
+SCHEMAS = {
+    's1': (_XSD1, _XML1, [
+        ('/r/n[1]', _tel('n', 'xs:int')), ('/r/n[2]', _tel('n', 'xs:int', True)), ('/r/n[3]', _tel('n', 'xs:int')),
+        ('/r/d[1]', _tel('d', 'xs:date')), ('/r/d[2]', _tel('d', 'xs:date', True)),
+        ('/r/s[1]', _tel('s', 'xs:int')), ('/r/s[2]', _tel('s', 'xs:int', True)), ('/r/t', _tel('t', 'xs:string')),
+        ('/r/@a', _tat('a', 'xs:int')), ('/r/@b', _tat('b', 'xs:date')), ('/r', _tel('r', 'xs:anyType'))]),
+    's2': (_XSD2, _XML2, [
+        ('/doc/e[1]', _tel('e', 'xs:decimal')), ('/doc/e[2]', _tel('e', 'xs:decimal', True)),
+        ('/doc/u[1]', _tel("u", "xs:duration")), ('/doc/u[2]', _tel("u", "xs:duration", True)),
+        ('/doc/k[1]', _tel('k', 'xs:unsignedByte')), ('/doc/k[2]', _tel('k', 'xs:unsignedByte', True)),
+        ('/doc/w[1]', _tel('w', 'xs:NCName')), ('/doc/w[2]', _tel('w', 'xs:NCName', True)), ('/doc/f', _tel('f', 'xs:boolean')),
+        ('/doc/@id', _tat('id', 'xs:ID')), ('/doc/@q', _tat('q', 'xs:unsignedShort'))]),
+}
+SCHEMA_IDX = {}
+for _fl, (_x, _y, _lst) in SCHEMAS.items():
+    SCHEMA_IDX[_fl] = list(range(len(NODES), len(NODES) + len(_lst)))
+    NODES.extend(_lst)
+
+
 def node_desc(idx, flavour):
     return _DOC_DESC[flavour] if idx == 0 else NODES[idx][1]
 
@@ -128,13 +184,28 @@ def env(flavour='et', xsd='1.0'):
         from elementpath import XPathContext
         from elementpath.xpath31 import XPath31Parser
         from elementpath.tree_builders import get_node_tree
+        if flavour in SCHEMAS:
+            import xmlschema
+            import xml.etree.ElementTree as ET
+            xsd_text, xml_text, _ = SCHEMAS[flavour]
+            proxy = xmlschema.XMLSchema(xsd_text).xpath_proxy
+            parser = XPath31Parser(namespaces=dict(NS), default_collation=CODEPOINT, schema=proxy)
+            root = get_node_tree(ET.XML(xml_text), namespaces=dict(NS))
+            nodes = [None] * len(NODES)
+            for i in SCHEMA_IDX[flavour]:
+                r = parser.parse(NODES[i][0]).evaluate(XPathContext(root, namespaces=dict(NS), schema=proxy))
+                if not isinstance(r, list) or len(r) != 1:
+                    raise HarnessError(f'schema document {flavour}: {NODES[i][0]} selects {r!r}')
+                nodes[i] = r[0]
+            _state[key] = (parser, root, nodes)
+            return _state[key]
         parser = XPath31Parser(namespaces=dict(NS), default_collation=CODEPOINT, xsd_version=xsd)
         if ('tree', flavour) not in _state:
             doc = _build_et() if flavour == 'et' else _build_lx()
             _state[('tree', flavour)] = get_node_tree(doc, namespaces=dict(NS))
         root = _state[('tree', flavour)]
         nodes = []
-        for xp, _ in NODES:
+        for xp, _ in NODES[:N_PLAIN]:
             r = parser.parse(xp).evaluate(XPathContext(root, namespaces=dict(NS)))
             if isinstance(r, list):
                 if len(r) != 1:
@@ -314,7 +385,7 @@ _EL_TYPES = ['xs:untyped', 'xs:anyType', 'xs:untypedAtomic', 'xs:string', 'xs:an
 _SIG_NODE_TYPES = ['xs:untyped', 'xs:string', 'xs:integer', 'xs:int', 'xs:anyAtomicType', 'xs:decimal']
 
 atom_value = st.sampled_from(ATOMS_10)
-node_value = st.integers(0, len(NODES) - 1).map(lambda i: ['N', i])
+node_value = st.integers(0, N_PLAIN - 1).map(lambda i: ['N', i])
 
 
 @st.composite
@@ -598,7 +669,7 @@ def value(draw):
             same = [a for a in ATOMS_10 if a[1] == first[1]]
             rest = [draw(st.sampled_from(same + [draw(atom_value)])) for _ in range(n)]
         elif first[0] == 'N':
-            pool = ELEMENT_IDX if first[1] in ELEMENT_IDX else ATTR_IDX if first[1] in ATTR_IDX else range(len(NODES))
+            pool = ELEMENT_IDX if first[1] in ELEMENT_IDX else ATTR_IDX if first[1] in ATTR_IDX else range(N_PLAIN)
             rest = [['N', draw(st.sampled_from(list(pool)))] for _ in range(n)]
         else:
             rest = [first] * n
@@ -606,11 +677,35 @@ def value(draw):
     return ['S', draw(st.lists(item_value, min_size=2, max_size=4))]
 
 
+def near_typed_node_tests(d):
+    """element()/attribute() tests with type arguments around the type annotation of a schema-typed node: the
+    annotation itself, its base types, derived and cousin types, with and without '?', right/wrong/no name"""
+    kind, name, annot = d[1], d[2], d[3]
+    if annot == 'xs:anyType':
+        types = ['xs:anyType', 'xs:anyAtomicType', 'xs:string']
+    else:
+        types = [a for a in rs.ancestors(annot) if a not in ('xs:anySimpleType',)]      # ... xs:anyAtomicType, xs:anyType
+        types += _CHILDREN.get(annot, [])[:2] + [x for x in _atomic_neighbours(annot) if x not in types][:4] + ['xs:string']
+    out = []
+    for t in types:
+        for n in (name, None, 'zz'):
+            if kind == 'element':
+                out.append(['element', n, t, False])
+                out.append(['element', n, t, True])
+            else:
+                out.append(['attribute', n, t])
+    out += [[kind, name, None] + ([False] if kind == 'element' else []), [kind, None, None] + ([False] if kind == 'element' else []),
+            ['node'], ['item']]
+    return out
+
+
 def near_item_types(d):
     """item types whose verdict for the described item d needs the hierarchy / name / signature"""
     k = d[0]
     if k == 'atom':
         return [['atomic', t] for t in _atomic_neighbours(d[1])]
+    if k == 'node' and d[1] in ('element', 'attribute') and d[3] not in ('xs:untyped', 'xs:untypedAtomic'):
+        return near_typed_node_tests(d)
     if k == 'node':
         kind, name = d[1], d[2]
         if kind == 'element':
@@ -696,6 +791,42 @@ def type_string_for(draw, desc):
     return s
 
 
+@st.composite
+def schema_case(draw):
+    """values: nodes of a schema-typed document (single, nilled + non-nilled occurrences of one element, all
+    occurrences, mixed); types: element()/attribute() tests around their annotations, every occurrence form"""
+    flavour = draw(st.sampled_from(sorted(SCHEMAS)))
+    idx = SCHEMA_IDX[flavour]
+    by_name = {}
+    for i in idx:
+        by_name.setdefault((NODES[i][1][1], NODES[i][1][2]), []).append(i)
+    groups = [g for g in by_name.values()]
+    k = draw(st.integers(0, 9))
+    if k < 4:
+        v = ['N', draw(st.sampled_from(idx))]
+    elif k < 8:
+        g = draw(st.sampled_from([g for g in groups if len(g) > 1]))
+        sel = draw(st.lists(st.sampled_from(g), min_size=2, max_size=4))
+        if draw(st.booleans()):
+            sel = list(g)
+        v = ['S', [['N', i] for i in sel]]
+    elif k == 8:
+        v = ['S', [['N', i] for i in draw(st.lists(st.sampled_from(idx), min_size=2, max_size=4))]]
+    else:
+        v = ['S', [['N', draw(st.sampled_from(idx))], draw(atom_value)]]
+    desc = describe(v, flavour)
+    ts = []
+    for _ in range(draw(st.integers(5, 9))):
+        d = desc[draw(st.integers(0, len(desc) - 1))]
+        d = d if d[0] == 'node' else desc[0]
+        it = draw(st.sampled_from(near_typed_node_tests(d)))
+        occ = draw(st.sampled_from(['', '', '?', '+', '*'])) if len(desc) == 1 else draw(st.sampled_from(['+', '*', '+', '*', '', '?']))
+        seed = draw(st.integers(0, 4)) == 0 and draw(st.integers(1, 2 ** 20))
+        ts.append(rs.render([it, occ], _lcg_ws(seed or 0)))
+    return {'doc': flavour, 'xsd': '1.0', 'ctx': None, 'v': v, 'ts': ts, 'route': draw(st.sampled_from(['var', 'inline'])),
+            'count': True}
+
+
 _XSD11_TYPES = ['xs:dateTimeStamp', 'xs:dateTimeStamp?', 'xs:dateTimeStamp*', 'xs:dateTimeStamp+', 'xs:dateTime', 'xs:dateTime+',
                 'xs:error', 'xs:error?', 'xs:error*', 'xs:error+', 'xs:anyAtomicType+', 'map(xs:dateTimeStamp, xs:error?)',
                 'array(xs:dateTimeStamp)', 'function(xs:dateTimeStamp) as xs:error?']
@@ -733,7 +864,8 @@ def ep_eval(parser, expr, root, item=None, variables=None):
     from elementpath import XPathContext, ElementPathError
     try:
         tk = parser.parse(expr)
-        ctx = XPathContext(root, namespaces=dict(NS), item=item, variables=variables or {})
+        ctx = XPathContext(root, namespaces=dict(NS), item=item, variables=variables or {},
+                           schema=getattr(parser, 'schema', None))
         return ('ok', tk.evaluate(ctx))
     except ElementPathError as e:
         return ('err', _err_code(e), e)
@@ -1087,7 +1219,18 @@ def judge_judgement(case, rec: Recorder | None = None) -> list[Disc]:
             texpr, tvars, o_ins = f'$v treat as {t}', {'v': pyval}, o_var
         o_tr = ep_eval(parser, texpr, root, item, tvars)
         k_tr = None
-        if o_tr[0] == 'esc':
+        if flavour in SCHEMAS and o_tr[0] == 'err' and o_tr[1] == 'XPDY0050':
+            pf_t = ep_parse(parser, texpr)
+            if pf_t is not None and pf_t[0] == 'err' and pf_t[1] == 'XPDY0050':
+                # raised by parse(): the static evaluation against the schema context executes `treat as` on schema
+                # components / unbound variables and lets its dynamic error escape
+                if want is True:
+                    discs.append(Disc('C18/treat/schema-bound-parser/static-phase-raises-XPDY0050', want, _show(o_tr),
+                                      texpr + (f'   with $v := {vexpr}' if tvars else '')))
+                o_tr = None
+        if o_tr is None:
+            pass
+        elif o_tr[0] == 'esc':
             k_tr = _slug(o_tr)
         elif static:
             k_tr = None if o_tr[0] == 'err' else 'no-static-error'
@@ -1116,8 +1259,27 @@ def judge_judgement(case, rec: Recorder | None = None) -> list[Disc]:
             discs.append(Disc(f'C18/treat/{_label(ast)}/{k_tr}', 'XPDY0050' if want is False else want, _show(o_tr),
                               texpr + (f'   with $v := {vexpr}' if tvars else '')))
 
+        # 4. count(V[. instance of ItemType]) = number of items that match the item type (node values only)
+        if case.get('count') and not static and ast[0] != 'empty' and all(d[0] == 'node' for d in desc):
+            it_text = rs.render([ast[0], ''])
+            n_want = sum(1 for d in desc if rs.item_matches(d, ast[0], NS))
+            o_cnt = ep_eval(parser, f'count($v[. instance of {it_text}])', root, item, {'v': pyval})
+            if not (o_cnt[0] == 'ok' and o_cnt[1] == n_want) and not k_inl and not k_var:
+                kind = _slug(o_cnt) if o_cnt[0] != 'ok' else ('count-too-high' if o_cnt[1] > n_want else 'count-too-low')
+                discs.append(Disc(bucket('count', kind, o_cnt), n_want, _show(o_cnt),
+                                  f'count($v[. instance of {it_text}])   with $v := {vexpr}'))
+
         if rec is not None:
             nt = _nontrivial(desc, ast)
+            if flavour in SCHEMAS:
+                pclasses.append('schema:pair')
+                if any(d[0] == 'node' and d[4] for d in desc):
+                    pclasses.append('schema:nilled-item')
+                nt_ = _inner_node_test(ast)
+                if nt_ is not None and nt_[2] is not None:
+                    pclasses.append('schema:type-argument')
+                    if nt_[0] == 'element' and nt_[3]:
+                        pclasses.append('schema:nillable-type-argument')
             if nt:
                 pclasses.append('pair:nontrivial')
             pclasses.append('pair:expect-' + ('static-error' if static else str(want).lower()))
@@ -1146,13 +1308,27 @@ def model_bucket(f):
     inst = obs in ('instance', 'instance-var')
     offender = f['desc'][f['bad']] if f['bad'] is not None else None
     nt = _inner_node_test(ast)
+    # M17 (schema-typed documents) a nilled element matches element(N, T?) for EVERY T: the type annotation is not
+    #     compared with T at all (XPath 3.1 2.5.5.3 demands derives-from(annotation, T) as well)
+    if nt is not None and nt[0] == 'element' and nt[2] is not None and nt[3] and (fp or kind == 'count-too-high') and \
+            any(d[0] == 'node' and d[4] and not rs.derives_from(d[3], nt[2]) for d in f['desc']):
+        return f'C18/{obs}/nilled-element-nillable-type-argument/false-positive'
+    # M20 (schema-typed documents) match_sequence_type judges element(N, T?) on the typed value, which is empty for a
+    #     nilled element: never matches
+    if obs == 'api' and nt is not None and nt[0] == 'element' and nt[2] is not None and nt[3] and fn and \
+            any(d[0] == 'node' and d[4] and rs.derives_from(d[3], nt[2]) for d in f['desc']):
+        return 'C18/api/nilled-element-nillable-type-argument/false-negative'
+    # M18 (schema-typed documents) attribute(N, xs:anyType) on a typed attribute: the schema proxy is asked to
+    #     validate the typed value against xs:anyType and a TypeError escapes
+    if nt is not None and nt[0] == 'attribute' and nt[2] == 'xs:anyType' and 'TypeError' in kind:
+        return f'C18/{obs}/typed-attribute-anyType-argument/TypeError'
     # M2 type argument of element()/attribute() that is not an atomic type: lookup fails instead of derives-from
     if nt is not None and nt[2] in rs.NON_ATOMIC and kind.startswith('error:'):
         return f'C18/{obs}/node-test-type-argument/{nt[2]}/{kind}'
     # M3 element(N, T): judged on the typed value of the element, not on its type annotation
     if nt is not None and nt[0] == 'element' and nt[2] is not None and (fp or fn):
         el = offender if fp else (f['desc'][0] if f['desc'] else None)
-        if el is not None and el[0] == 'node' and el[1] in ('element', 'document'):
+        if el is not None and el[0] == 'node' and el[1] in ('element', 'document') and el[3] in ('xs:untyped', None):
             return f'C18/{obs}/element-type-argument/{nt[2]}/' + ('false-positive' if fp else 'false-negative')
     # M4 maps and arrays against a typed function test: judged on their entries, not on their signature
     if it is not None and it[0] == 'function' and it[1] is not None and (fp or fn):
@@ -1170,7 +1346,7 @@ def model_bucket(f):
     # M3b attribute(N, T): without a schema the type argument is ignored (pinned by tests/test_xpath2_parser.py
     #     test_attribute_accessor); match_sequence_type accepts xs:untyped for attributes
     if nt is not None and nt[0] == 'attribute' and nt[2] is not None and fp and offender is not None \
-            and offender[0] == 'node' and offender[1] == 'attribute':
+            and offender[0] == 'node' and offender[1] == 'attribute' and offender[3] == 'xs:untypedAtomic':
         return f'C18/{obs}/attribute-type-argument/{nt[2]}/false-positive'
     # M13 match_sequence_type does not know parenthesized item types
     if obs == 'api' and "['paren'," in repr(ast):
@@ -1189,10 +1365,6 @@ def model_bucket(f):
     if obs == 'api' and it is not None and it[0] == 'function' and it[1] is not None and (fp or fn) and \
             any(', ' in rs.render(a) or ') as ' in rs.render(a) for a in it[1]):
         return 'C18/api/typed-function-test/string-split-of-nested-parameters/' + ('false-positive' if fp else 'false-negative')
-    # M1 instance of <kind test>? / <kind test>*: the first item that fails the item type ends the loop with True
-    #    (also reached when another defect makes a matching item look non-matching, e.g. attribute(p:y)?)
-    if inst and f['label'] == 'kind-test' and fp and f['occ'] in ('?', '*'):
-        return 'C18/instance/kind-test/nonmatching-item-accepted-under-?*'
     # M5 typed function test on a function item: which component does elementpath's subtype relation judge
     #    differently from XPath 3.1 2.5.6?  (unsound = accepts a non-subtype, incomplete = refuses a subtype)
     if it is not None and it[0] == 'function' and it[1] is not None and (fp or fn):
@@ -1263,7 +1435,7 @@ def _pool_values():
                               'xs:double', 'xs:float', 'xs:string', 'xs:token', 'xs:NCName', 'xs:ID', 'xs:normalizedString',
                               'xs:untypedAtomic', 'xs:anyURI', 'xs:QName', 'xs:boolean', 'xs:date', 'xs:dateTime',
                               'xs:duration', 'xs:dayTimeDuration', 'xs:hexBinary', 'xs:nonNegativeInteger', 'xs:short')]
-    singles += [node_desc(i, 'et') for i in range(len(NODES))] + [node_desc(0, 'lx')]
+    singles += [node_desc(i, "et") for i in range(N_PLAIN)] + [node_desc(0, 'lx')]
     singles += [_node('document', children=[_EL_B]), _node('document', children=[_EL_A, _EL_B]), _node('document', children=[])]
     P = rs.parse
     singles += [('func', [P(a) for a in args], P(r)) for args, r in [
@@ -1673,10 +1845,17 @@ def default_arg(ast, depth=2):
     return None
 
 
-def sweep_cases(sig, stride=1):
-    """deterministic cases: every parameter of an atomic (or item()) type receives every value of SIG_VALUES whose type
-    derives from it - alone and, for * / + parameters, inside a long sequence - the other parameters a benign default;
-    plus the empty sequence for ? / * parameters.  stride > 1 thins the values of xs:anyAtomicType / item() parameters."""
+_NODE_KIND_OF = ['document', 'element', 'element', 'element', 'attribute', 'attribute', 'text', 'comment',
+                 'processing-instruction', 'namespace']      # kinds of NODES[0..9], passed as $N0..$N9
+
+
+def sweep_cases(sig, stride=1, mode='full', cfg='default'):
+    """deterministic cases: every parameter of an atomic, item() or node type receives every value of its classes -
+    SIG_VALUES whose type derives from the parameter type, and the ten nodes of the fixed document (every kind, also the
+    nameless ones) as $N0..$N9 - alone and, for * / + parameters, inside sequences; the other parameters get a benign
+    default; plus the empty sequence for ? / * parameters.
+    stride > 1 thins the values of xs:anyAtomicType / item() parameters; mode 'nodes' = node values and () only,
+    mode 'thin' = nodes, () and one value per (primitive family, class)."""
     name, arity, params, ret, variadic = sig
     asts = [rs.parse(p) for p in params]
     n = arity
@@ -1687,7 +1866,8 @@ def sweep_cases(sig, stride=1):
             defaults.append("'%s'" % CODEPOINT)
             continue
         hint = ARG_HINTS.get((_local(name), i))
-        defaults.append(hint[0] if hint else default_arg(a))
+        d = hint[0] if hint else default_arg(a)
+        defaults.append({'/a': '$N1', '(/)': '$N0', '/a/@x': '$N4'}.get(d, d))
     if any(d is None for d in defaults):
         return
     for i in range(n):
@@ -1696,36 +1876,62 @@ def sweep_cases(sig, stride=1):
             continue
         it, occ = a
         it = rs.strip_paren(it)
+        node_idx = []
+        ptype = None
         if it[0] == 'atomic':
             ptype = it[1]
         elif it[0] == 'item':
             ptype = 'xs:anyAtomicType'
+            node_idx = list(range(10))
+        elif it[0] == 'node':
+            node_idx = list(range(10))
+        elif it[0] == 'element' and it[1] is None and it[2] is None:
+            node_idx = [1, 2, 3]
+        elif it[0] == 'doc' and it[1] is None:
+            node_idx = [0]
         else:
             continue
-        wide = ptype in ('xs:anyAtomicType',)
-        cands = [v for v in SIG_VALUES if rs.derives_from(v[0], ptype)]
-        if i > 0:
-            # magnitudes >= 10^6 / infinities only in the first parameter: as precision or exponent they make
-            # elementpath compute 10 ** 10**30 (round-half-to-even(1, -10**30) does not return) - not C18's subject
-            cands = [v for v in cands if not (v[1].startswith('numeric:') and _BIG.search(v[2]))]
-        if wide and stride > 1:
-            seen, thin = {}, []
-            for v in cands:
-                k = seen.get((v[0], v[1]), 0)
-                if k % stride == 0:
-                    thin.append(v)
-                seen[v[0], v[1]] = k + 1
-            cands = thin
+        cands = []
+        if ptype is not None and mode != 'nodes':
+            wide = ptype in ('xs:anyAtomicType',)
+            cands = [v for v in SIG_VALUES if rs.derives_from(v[0], ptype)]
+            if i > 0:
+                # magnitudes >= 10^6 / infinities only in the first parameter: as precision or exponent they make
+                # elementpath compute 10 ** 10**30 (round-half-to-even(1, -10**30) does not return) - not C18's subject
+                cands = [v for v in cands if not (v[1].startswith('numeric:') and _BIG.search(v[2]))]
+            if mode == 'thin':
+                seen, thin = set(), []
+                for v in cands:
+                    fam = [x for x in rs.ancestors(v[0]) if rs.BASE.get(x) == 'xs:anyAtomicType'] or [v[0]]
+                    if (fam[0], v[1]) not in seen:
+                        seen.add((fam[0], v[1]))
+                        thin.append(v)
+                cands = thin
+            elif wide and stride > 1:
+                seen, thin = {}, []
+                for v in cands:
+                    k = seen.get((v[0], v[1]), 0)
+                    if k % stride == 0:
+                        thin.append(v)
+                    seen[v[0], v[1]] = k + 1
+                cands = thin
 
         def mk(expr, cls, shape):
             args = [['X', d] for d in defaults]
             args[i] = ['X', expr]
-            return {'fn': name, 'arity': arity, 'args': args, 'doc': 'et', 'ctx': 1, 'cls': cls, 'pos': i, 'shape': shape}
+            c = {'fn': name, 'arity': arity, 'args': args, 'doc': 'et', 'ctx': 1, 'cls': cls, 'pos': i, 'shape': shape}
+            if cfg != 'default':
+                c['cfg'] = cfg
+            return c
         if occ in ('?', '*'):
             yield mk('()', 'seq:empty', 'empty')
+        for j in node_idx:
+            yield mk('$N%d' % j, 'node:' + _NODE_KIND_OF[j], 'single')
+        if node_idx and occ in ('*', '+'):
+            yield mk('(%s)' % ', '.join('$N%d' % j for j in node_idx), 'node:all-kinds', 'long')
         for t, cls, expr in cands:
             yield mk(expr, cls, 'single')
-        if occ in ('*', '+'):
+        if occ in ('*', '+') and mode == 'full':
             by_type = {}
             for t, cls, expr in cands:
                 by_type.setdefault(t, []).append((cls, expr))
@@ -1738,11 +1944,41 @@ def sweep_cases(sig, stride=1):
                     yield mk('(%s)' % ', '.join(sel + sel), cls, 'seq')
 
 
-def signatures():
-    """[(prefixed name, arity, [param type strings], return type string, variadic)] of the 3.1 parser"""
-    from elementpath.xpath31 import XPath31Parser
+# parser configurations under which the declared return types must hold as well
+CONFIGS = {
+    'default': ('31', {}),
+    'compat31': ('31', {'compatibility_mode': True}),
+    'compat30': ('30', {'compatibility_mode': True}),
+    'compat20': ('20', {'compatibility_mode': True}),
+    'xsd11': ('31', {'xsd_version': '1.1'}),
+    'nonstrict': ('31', {'strict': False}),
+    'defns': ('31', {'default_namespace': 'urn:d'}),
+}
+ALT_CONFIGS = [c for c in CONFIGS if c != 'default']
+
+
+def cfg_env(cfg='default'):
+    """(parser built with the configuration, node tree root of the ElementTree document, its ten nodes)"""
+    if cfg == 'default':
+        return env('et', '1.0')
+    key = ('cfg', cfg)
+    if key not in _state:
+        from elementpath import XPath2Parser
+        from elementpath.xpath30 import XPath30Parser
+        from elementpath.xpath31 import XPath31Parser
+        ver, opts = CONFIGS[cfg]
+        cls = {'20': XPath2Parser, '30': XPath30Parser, '31': XPath31Parser}[ver]
+        _, root, nodes = env('et', '1.0')
+        _state[key] = (cls(namespaces=dict(NS), default_collation=CODEPOINT, **opts), root, nodes)
+    return _state[key]
+
+
+def signatures(cfg='default'):
+    """[(prefixed name, arity, [param type strings], return type string, variadic)] of the parser class of `cfg`"""
     out = []
-    for (qn, arity), sig in XPath31Parser.function_signatures.items():
+    for (qn, arity), sig in type(cfg_env(cfg)[0]).function_signatures.items():
+        if qn.qname.startswith('math:') and 'math' not in cfg_env(cfg)[0].namespaces:
+            continue
         variadic = ', ...)' in sig
         body = sig.replace(', ...)', ')')
         ast = rs.parse(body)
@@ -1940,12 +2176,12 @@ def describe_result_seq(v, depth=0):
     return [describe_result(v, depth)]
 
 
-def declared_return_type(name, arity) -> str:
+def declared_return_type(name, arity, cfg='default') -> str:
     """the return type registered in elementpath for name#arity, read at judge time (a replayed case must be
     judged against the declaration of the tree under test)"""
-    if 'sigs' not in _state:
-        _state['sigs'] = {(s[0], s[1]): s[3] for s in signatures()}
-    return _state['sigs'][name, arity]
+    if ('sigs', cfg) not in _state:
+        _state['sigs', cfg] = {(s[0], s[1]): s[3] for s in signatures(cfg)}
+    return _state['sigs', cfg][name, arity]
 
 
 def _type_mismatch(res, declared):
@@ -1966,15 +2202,20 @@ def _type_mismatch(res, declared):
 
 def judge_signature(case, rec: Recorder | None = None) -> list[Disc]:
     discs: list[Disc] = []
-    parser, root, nodes = env(case['doc'], '1.0')
+    cfg = case.get('cfg', 'default')
+    if cfg == 'default':
+        parser, root, nodes = env(case['doc'], '1.0')
+    else:
+        parser, root, nodes = cfg_env(cfg)
     name, arity = case['fn'], case['arity']
     argx = [_render_arg(a) for a in case['args']]
     expr = '%s(%s)' % (name, ', '.join(argx))
     item = nodes[case['ctx']] if case.get('ctx') is not None else None
-    got = ep_eval(parser, expr, root, item)
-    tag = f'{name}#{arity}'
-    classes = ['sig:call']
-    declared = declared_return_type(name, arity)
+    nvars = {'N%d' % i: x for i, x in enumerate(nodes)}
+    got = ep_eval(parser, expr, root, item, nvars)
+    tag = f'{name}#{arity}' + ('' if cfg == 'default' else f'[{cfg}]')
+    classes = ['sig:call'] + ([] if cfg == 'default' else ['sig:cfg:' + cfg])
+    declared = declared_return_type(name, arity, cfg)
     if got[0] == 'esc':
         classes.append('sig:escape')      # not a successful call; escaping exceptions belong to C03
     elif got[0] == 'err':
@@ -1987,11 +2228,13 @@ def judge_signature(case, rec: Recorder | None = None) -> list[Disc]:
             discs.append(Disc(f'C18/signature/{tag}/{k}', declared, repr(got[1])[:200], expr))
         # the same call through the function item and through the arrow operator: there elementpath itself checks
         # the result against the registered signature; a direct success must not turn into an error
-        routes = [('item-call', '%s#%d(%s)' % (name, len(argx), ', '.join(argx)))]
-        if argx:
+        routes = []
+        if parser.version >= '3.0':
+            routes.append(('item-call', '%s#%d(%s)' % (name, len(argx), ', '.join(argx))))
+        if argx and parser.version >= '3.1':
             routes.append(('arrow-call', '(%s) => %s(%s)' % (argx[0], name, ', '.join(argx[1:]))))
         for rname, rexpr in routes:
-            g2 = ep_eval(parser, rexpr, root, item)
+            g2 = ep_eval(parser, rexpr, root, item, nvars)
             classes.append(f'sig:{rname}')
             if g2[0] == 'ok':
                 res2 = describe_result_seq(g2[1])
@@ -2013,13 +2256,13 @@ def judge_signature(case, rec: Recorder | None = None) -> list[Disc]:
             if got[0] == 'ok':
                 classes.append(f'sweep:{cls}:success')
             cells = rec.extra.setdefault('_sweep', {})
-            key = f"{tag}|{case['pos']}|{cls}"
+            key = f"{name}#{arity}|{case['pos']}|{cls}"
             c = cells.setdefault(key, [0, 0])
             c[0] += 1
             c[1] += got[0] == 'ok'
         rec.case([name, arity, case['args'], case['ctx']], nontrivial=got[0] == 'ok', classes=classes,
                  sample={'check': 'signature', 'call': expr, 'declared': declared})
-        if got[0] == 'ok':
+        if got[0] == 'ok' and cfg == 'default':
             ok = rec.extra.setdefault('_sig_ok', {})
             ok[tag] = ok.get(tag, 0) + 1
     return discs
@@ -2050,22 +2293,23 @@ def selftest():
 def jobs(tier, seed):
     q = tier == 'quick'
     out = []
-    nj, per = (10, 1500) if q else (12, 18000)
+    nj, per = (9, 1500) if q else (11, 18000)
     for i in range(nj):
         out.append({'check': 'judge', 'shard': i, 'n': per, 'seed': derive_seed(seed, 'C18', 'judge', i)})
     out.append({'check': 'subtype-pool', 'rows': list(range(len(POOL_TYPES)))})
+    out.append({'check': 'schema', 'shard': 0, 'n': 900 if q else 12000, 'seed': derive_seed(seed, 'C18', 'schema', 0)})
     ng, perg = (2, 3000) if q else (2, 40000)
     for i in range(ng):
         out.append({'check': 'subtype-gen', 'shard': i, 'n': perg, 'seed': derive_seed(seed, 'C18', 'subtype-gen', i)})
     ks, pers = (3, 40) if q else (2, 400)
     for i in range(ks):
-        out.append({'check': 'signature', 'shard': i, 'of': ks, 'n': pers, 'stride': 4 if q else 1,
+        out.append({'check': 'signature', 'shard': i, 'of': ks, 'n': pers, 'stride': 4 if q else 1, 'cfg_all': not q,
                     'seed': derive_seed(seed, 'C18', 'signature', i)})
     return out
 
 
-_STRATS = {'judge': judge_case(), 'subtype-gen': subtype_gen_case()}
-_JUDGES = {'judge': judge_judgement, 'subtype-gen': judge_subtype_gen, 'subtype-pool': judge_subtype_pool,
+_STRATS = {'judge': judge_case(), 'subtype-gen': subtype_gen_case(), 'schema': schema_case()}
+_JUDGES = {'judge': judge_judgement, 'schema': judge_judgement, 'subtype-gen': judge_subtype_gen, 'subtype-pool': judge_subtype_pool,
            'signature': judge_signature}
 
 
@@ -2107,6 +2351,15 @@ def run_job(job, rec: Recorder):
             if rec.evaluations == before:
                 uninhabitable += 1
                 rec.notes.append(f'signature {tag}: parameter types not inhabitable by the generator')
+        # the same declarations under the other parser configurations: node arguments of every kind for every
+        # signature, and (one configuration per signature in turn; all of them in the thorough tier) one value per
+        # (primitive family, class) for the atomic parameters
+        for ci, cfg in enumerate(ALT_CONFIGS):
+            csigs = [x for i, x in enumerate(signatures(cfg)) if i % job['of'] == job['shard'] and not sig_excluded(x[0])]
+            for k, sig in enumerate(csigs):
+                mode = 'thin' if job.get('cfg_all') or k % len(ALT_CONFIGS) == ci else 'nodes'
+                for case in sweep_cases(sig, 1, mode, cfg):
+                    rec.discs_of(chk, case, judge_signature(case, rec))
         signal.alarm(0)
         ok = rec.extra.pop('_sig_ok', {})
         cells = rec.extra.pop('_sweep', {})
@@ -2137,15 +2390,21 @@ def shrink_job(job, bucket, budget):
                 return case, d
         return None
     if chk == 'signature':
-        for sig in _sig_jobs(job):
-            tag = f'{sig[0]}#{sig[1]}'
+        import re
+        m = re.search(r'#\d+\[(\w+)\]/', bucket)
+        cfg = m.group(1) if m else 'default'
+        sigs = _sig_jobs(job) if cfg == 'default' else \
+            [x for i, x in enumerate(signatures(cfg)) if i % job['of'] == job['shard']]
+        for sig in sigs:
+            tag = f'{sig[0]}#{sig[1]}' + ('' if cfg == 'default' else f'[{cfg}]')
             if ('/' + tag + '/') in bucket + '/' and not sig_excluded(sig[0]):
-                for case in sweep_cases(sig, job.get('stride', 1)):
+                for case in sweep_cases(sig, job.get('stride', 1), 'full' if cfg == 'default' else 'thin', cfg):
                     for d in judge_signature(case):
                         if d.bucket == bucket:
                             return case, d
-                return hyp_shrink(signature_case(sig), _judge_sig_opt, bucket, job['n'],
-                                  derive_seed(job['seed'], tag), budget)
+                if cfg == 'default':
+                    return hyp_shrink(signature_case(sig), _judge_sig_opt, bucket, job['n'],
+                                      derive_seed(job['seed'], tag), budget)
         return None
     return hyp_shrink(_STRATS[chk], _JUDGES[chk], bucket, job['n'], job['seed'], budget)
 
